@@ -17,6 +17,7 @@ type RichOptions struct {
 	ArgDefaults   bool
 	InputDefaults bool
 	Deprecations  bool
+	Newer         bool // @specifiedBy on custom scalars, repeatable directives (October 2021)
 	DirectiveUses bool // applications of custom directives in the SDL (not transported by introspection at all)
 }
 
@@ -208,12 +209,20 @@ func RichSchema(rng *rand.Rand, opt RichOptions) string {
 			if len(as) > 0 {
 				al = "(" + strings.Join(as, ", ") + ")"
 			}
-			fmt.Fprintf(&g.b, "directive @%s%s on %s\n", d, al, strings.Join(dirLocs[d], " | "))
+			rep := ""
+			if opt.Newer && rng.Intn(2) == 0 {
+				rep = " repeatable"
+			}
+			fmt.Fprintf(&g.b, "directive @%s%s%s on %s\n", d, al, rep, strings.Join(dirLocs[d], " | "))
 		}
 	}
 	for _, s := range custom {
 		g.desc("")
-		fmt.Fprintf(&g.b, "scalar %s%s\n", s, dirUse("SCALAR"))
+		spec := ""
+		if opt.Newer && rng.Intn(2) == 0 {
+			spec = ` @specifiedBy(url: "https://example.com/` + s + `")`
+		}
+		fmt.Fprintf(&g.b, "scalar %s%s%s\n", s, spec, dirUse("SCALAR"))
 	}
 	for _, e := range enumNames {
 		g.desc("")
